@@ -6,6 +6,12 @@
 (* reservations compete with small ones; optionally one tensor OBJECT      *)
 (* shared by two initializers, 0-1 failing tensor objects, one file or     *)
 (* concurrent shards (1-2 drivers with 1-2 inner workers).                 *)
+(* QMixed: one tensor OBJECT shared between a shard written by the serial  *)
+(* writer (one tensor) and a shard written by a parallel inner writer      *)
+(* (>= 2 tensors), with a tight budget (2 * size > Cap) or the object      *)
+(* larger than the whole budget (the single oversized slot); with and      *)
+(* without a failing tensor / failing callback.  QKinds: the same failing  *)
+(* configurations for every kind of exception.                             *)
 (* Every behaviour is finite, so no state constraint is needed.            *)
 (***************************************************************************)
 EXTENDS ParallelWriter
@@ -21,7 +27,13 @@ Consistent(sz, ob) == \A i, j \in DOMAIN sz : ob[i] = ob[j] => sz[i] = sz[j]
 ObjSet(ob) == {ob[i] : i \in DOMAIN ob}
 Fails(ob, k) == IF k = 0 THEN {{}} ELSE {{}} \cup {{o} : o \in ObjSet(ob)}
 
-Raw(sz, ob, fl, mw, ms) == [size |-> sz, obj |-> ob, fail |-> fl, cap |-> Cap, mw |-> mw, maxShard |-> ms]
+Kinds == {"RuntimeError", "OSError", "Abort", "KeyboardInterrupt", "SystemExit"}
+RawK(sz, ob, fl, cbf, k, mw, ms) ==
+  [size |-> sz, obj |-> ob, fail |-> fl, cbfail |-> cbf, fkind |-> k, cap |-> Cap, mw |-> mw, maxShard |-> ms]
+Raw(sz, ob, fl, mw, ms) == RawK(sz, ob, fl, {}, "OSError", mw, ms)
+\* the same configurations with a failing callback instead of a failing tensor (one index at a time)
+WithCbFail(S) == UNION { { [r EXCEPT !.fail = {}, !.cbfail = {i}] : i \in DOMAIN r.size } : r \in S }
+WithKinds(S)  == { [r EXCEPT !.fkind = k] : r \in S, k \in Kinds }
 
 \* n tensors, sizes from S, max_workers from mws, max_shard_size_bytes from mss (0 = one file)
 Gen(n, S, mws, shared, kfail, mss) ==
@@ -38,11 +50,32 @@ QSingle == Gen(3, {1, Cap, Cap + 1}, {2}, TRUE, 1, {0})
 QShard  == GenV({<<1, 1, Cap + 1>>, <<Cap + 1, 1, Cap + 1>>, <<1, Cap + 1, 1>>}, {2, 6}, 1, {Cap + 1})
            \cup {Raw(<<Cap + 1, 1, Cap + 1>>, Shared(3), {}, 2, Cap + 1), Raw(<<1, Cap, 1>>, Shared(3), {1}, 6, Cap)}
 QFour   == GenV({<<Cap + 1, 1, 2 * Cap, Cap>>}, {3}, 1, {0})
+\* shards {1,2} (parallel inner writer: 6 workers = 2 drivers x 2 inner) and {3} (serial writer);
+\* tensor 3 is the same object as tensor 1
+MixedTight == Raw(<<Cap, 1, Cap>>, Shared(3), {}, 6, Cap + 1)            \* 2 * Cap > Cap
+MixedOver  == Raw(<<Cap + 1, 1, Cap + 1>>, Shared(3), {}, 6, 2 * Cap)    \* the oversized slot
+\* three shards {1} {2} {3,4}: two serial writers and a parallel one, 9 workers = 3 drivers x 2 inner
+Mixed4     == Raw(<<Cap, Cap, 1, Cap>>, [i \in 1..4 |-> IF i = 4 THEN 1 ELSE i], {}, 9, Cap + 1)
+QMixedOk == {MixedTight, MixedOver}
+QMixed  == QMixedOk
+           \cup { [r EXCEPT !.fail = {o}] : r \in QMixedOk, o \in {1, 2} }
+           \cup WithCbFail(QMixedOk)
+\* failing callbacks in the one-file and in the sharded (serial writers only) case
+QCbFail == WithCbFail({Raw(<<1, Cap, Cap + 1>>, Ident(3), {}, 2, 0), Raw(<<Cap + 1, Cap + 1, 1>>, Ident(3), {}, 3, 0),
+                       Raw(<<1, Cap + 1, 1>>, Ident(3), {}, 2, Cap + 1)})
+\* every kind of exception: the behaviours are the same, so one small base is enough
+QKinds  == WithKinds({Raw(<<Cap, Cap, 1>>, Ident(3), {2}, 2, 0), RawK(<<Cap, Cap, 1>>, Ident(3), {}, {1}, "OSError", 2, 0),
+                      [MixedTight EXCEPT !.fail = {1}]})
 
 Configs ==
-  CASE Family = "quick"    -> QSingle \cup QShard \cup QFour
+  CASE Family = "quick"    -> QSingle \cup QShard \cup QFour \cup QMixed \cup QCbFail \cup QKinds
     [] Family = "live"     -> GenV({<<1, Cap, Cap + 1>>, <<Cap + 1, Cap + 1, 1>>, <<Cap, Cap, 1>>}, {2, 3}, 1, {0})
                               \cup {Raw(<<Cap + 1, 1, Cap + 1>>, Shared(3), {}, 2, Cap + 1), Raw(<<1, Cap, 1>>, Ident(3), {1}, 6, Cap)}
+                              \cup QMixedOk \cup {[MixedTight EXCEPT !.fail = {1}], [MixedOver EXCEPT !.cbfail = {3}]}
+    [] Family = "mixed"    -> QMixed
+    [] Family = "mixed4"   -> QMixed \cup {Mixed4, [Mixed4 EXCEPT !.fail = {1}], [Mixed4 EXCEPT !.cbfail = {4}]}
+    [] Family = "cbfail"   -> WithCbFail(Gen(3, {1, Cap, Cap + 1}, {2, 3}, TRUE, 0, {0}))
+                              \cup WithCbFail(Gen(3, {1, Cap, Cap + 1}, {2, 6}, TRUE, 0, {Cap + 1, 2 * Cap}))
     [] Family = "single3"  -> Gen(3, SizeSet, {2, 3}, TRUE, 1, {0})
     [] Family = "shard3"   -> Gen(3, SizeSet \ {0}, {2, 6}, TRUE, 1, {Cap + 1, 2 * Cap})
     [] Family = "four"     -> Gen(4, {1, Cap + 1}, {3}, FALSE, 1, {0})
@@ -72,11 +105,99 @@ ReleaseOne(t) ==
   /\ pc' = [pc EXCEPT ![t] = "unlocking"]
   /\ UNCHANGED <<cfg, task, vPool, exc, hasFile, vLocks, vOut>>
 
+(***************************************************************************)
+(* Anti-vacuity (ParallelWriterMC_weak.cfg; asserted on every run of the   *)
+(* check): the acquisition order of ONE writer kind is swapped.  The pool  *)
+(* worker of _write_parallel reserves the bytes FIRST                      *)
+(*     budget -> callback lock(s) -> files_lock -> tensor lock -> write    *)
+(*            -> tensor unlock -> budget release                           *)
+(* while the serial writer keeps  tensor lock -> budget.  With a tensor    *)
+(* object shared between a serial shard and a parallel shard and a tight   *)
+(* budget / the oversized slot TLC must report a deadlock: worker holds    *)
+(* the bytes and waits for lock(T), serial driver holds lock(T) and waits  *)
+(* for the bytes.                                                          *)
+(***************************************************************************)
+WTake(w) ==
+  /\ IsWrk(w) /\ pc[w] = "idle"
+  /\ LET d == DrvOf(w)
+     IN /\ pc[d] = "pmain" /\ queue[d] # <<>> /\ PoolHas(w)
+        /\ task' = [task EXCEPT ![w] = Head(queue[d])]
+        /\ tstat' = [tstat EXCEPT ![Head(queue[d])] = "running"]
+        /\ queue' = [queue EXCEPT ![d] = Tail(@)]
+  /\ pc' = [pc EXCEPT ![w] = "wPre"]
+  /\ UNCHANGED <<cfg, job, shardQ, jstat, exc, hasFile, vLocks, vBud, vOut>>
+
+WAcq(w) ==
+  /\ IsWrk(w)
+  /\ \/ pc[w] = "wPre"
+     \/ pc[w] = "wPreWait" /\ w \notin waiters
+  /\ CanAcq(w)
+  /\ Reserve(w) /\ UNCHANGED waiters
+  /\ pc' = [pc EXCEPT ![w] = "icbWait"]
+  /\ UNCHANGED <<cfg, task, vPool, exc, hasFile, vLocks, vOut>>
+
+WAcqBlock(w) ==
+  /\ IsWrk(w)
+  /\ \/ pc[w] = "wPre"
+     \/ pc[w] = "wPreWait" /\ w \notin waiters
+  /\ ~CanAcq(w)
+  /\ waiters' = waiters \cup {w}
+  /\ pc' = [pc EXCEPT ![w] = "wPreWait"]
+  /\ UNCHANGED <<cfg, task, vPool, exc, hasFile, vLocks, inFlight, oversized, vOut>>
+
+\* the callback raised: the reservation is released in the finally clause
+WICbRel(w) ==
+  /\ IsWrk(w) /\ pc[w] = "icbRel"
+  /\ icb' = [icb EXCEPT ![DrvOf(w)] = NoOne]
+  /\ pc' = [pc EXCEPT ![w] = IF w \in exc THEN "wRelease"
+                             ELSE IF w \in hasFile THEN "lockWait" ELSE "fWait"]
+  /\ UNCHANGED <<cfg, task, vPool, exc, hasFile, tlock, ocb, flock, vBud, vOut>>
+
+\* tensor.tofile under the tensor lock, the reservation is already held
+WWrite(w) ==
+  /\ IsWrk(w) /\ pc[w] = "holdLock"
+  /\ IF Ob(w) \in cfg.fail
+     THEN exc' = exc \cup {w} /\ UNCHANGED file
+     ELSE file' = WriteAt(cfg, file, task[w]) /\ UNCHANGED exc
+  /\ pc' = [pc EXCEPT ![w] = "wUnlock"]
+  /\ UNCHANGED <<cfg, task, vPool, hasFile, vLocks, vBud, cbCount>>
+
+WTUnlock(w) ==
+  /\ IsWrk(w) /\ pc[w] = "wUnlock"
+  /\ tlock' = [tlock EXCEPT ![Ob(w)] = NoOne]
+  /\ pc' = [pc EXCEPT ![w] = "wRelease"]
+  /\ UNCHANGED <<cfg, task, vPool, exc, hasFile, icb, ocb, flock, vBud, vOut>>
+
+WRelease(w) ==
+  /\ IsWrk(w) /\ pc[w] = "wRelease"
+  /\ IF Big(w) THEN oversized' = FALSE /\ UNCHANGED inFlight
+               ELSE inFlight' = inFlight - Sz(w) /\ UNCHANGED oversized
+  /\ waiters' = {}
+  /\ pc' = [pc EXCEPT ![w] = "finish"]
+  /\ UNCHANGED <<cfg, task, vPool, exc, hasFile, vLocks, vOut>>
+
+PoolWriterStepWeak(w) ==
+  /\ IsWrk(w)
+  /\ \/ WAcq(w) \/ WAcqBlock(w)
+     \/ ICbAcq(w) \/ OCbAcq(w) \/ CbRun(w) \/ CbFail(w) \/ OCbRel(w) \/ WICbRel(w)
+     \/ FAcq(w) \/ FRel(w)
+     \/ TLock(w) \/ WWrite(w) \/ WTUnlock(w) \/ WRelease(w)
+
+StepWeak == \E t \in T :
+  \/ DTake(t) \/ DFinish(t) \/ WTake(t) \/ Finish(t) \/ FirstFailure(t) \/ JoinInner(t)
+  \/ (t = 0 /\ (JoinAll \/ Return))
+  \/ SerialWriterStep(t)
+  \/ PoolWriterStepWeak(t)
+MCSpecWeak == MCInit /\ [][StepWeak \/ Terminated]_vars
+
+\* the budget formulas survive the swap (it is a liveness defect only): checked in the weak cfg too
+WeakBudget == /\ inFlight >= 0 /\ inFlight <= cfg.cap
+
 StepOne == \E t \in T :
   \/ DTake(t) \/ DFinish(t) \/ Take(t) \/ Finish(t) \/ FirstFailure(t) \/ JoinInner(t)
-  \/ ICbAcq(t) \/ OCbAcq(t) \/ CbRun(t) \/ OCbRel(t) \/ ICbRel(t) \/ FAcq(t) \/ FRel(t)
+  \/ ICbAcq(t) \/ OCbAcq(t) \/ CbRun(t) \/ CbFail(t) \/ OCbRel(t) \/ ICbRel(t) \/ FAcq(t) \/ FRel(t)
   \/ TLock(t) \/ AcqFit(t) \/ AcqOver(t) \/ AcqBlock(t) \/ WakeFit(t) \/ WakeBlock(t)
-  \/ Write(t) \/ ReleaseOne(t) \/ TUnlock(t)
+  \/ Write(t) \/ WriteFail(t) \/ ReleaseOne(t) \/ TUnlock(t)
   \/ (t = 0 /\ (JoinAll \/ Return))
 MCSpecOne == MCInit /\ [][StepOne \/ Terminated]_vars /\ WF_vars(StepOne)
 =============================================================================
